@@ -1192,8 +1192,10 @@ def work(args):
 
 def main(argv=None):
     ck = Check('C04', argv)
-    ck.extra['modules'] = ['Props.C04', 'Drivers.FileStore']
-    ck.run_gate(ck.extra['modules'], ['Props.C04'])
+    # Props.Links: cross-model link theorems (History = the spec every other model's queries are tied
+    # to; byte layout C01 = C17; sizes/offsets C04 = C01 = C05; …) are audited with this check
+    ck.extra['modules'] = ['Props.C04', 'Props.Links', 'Drivers.FileStore']
+    ck.run_gate(ck.extra['modules'], ['Props.C04', 'Props.Links'])
     nproc = min(16, os.cpu_count() or 4)
     if ck.replay_path:
         with open(ck.replay_path) as f:
